@@ -119,5 +119,168 @@ theorem civil_roundtrip (y : Int) (m d : Nat) (hv : validCivil y m d = true) :
       simp only [Int.ofNat_eq_natCast] at * <;> split <;> omega
   · simp
 
+/-- every day of an era is the day of a valid (year of era, day of year) pair -/
+theorem doe_decompose (doe : Int) (h0 : 0 ≤ doe) (h1 : doe ≤ 146096) :
+    ∃ yoe doy : Int, 0 ≤ yoe ∧ yoe ≤ 399 ∧ 0 ≤ doy ∧ doy ≤ 365 ∧
+      (doy = 365 → ((yoe + 1) % 4 = 0 ∧ ((yoe + 1) % 100 ≠ 0 ∨ yoe = 399))) ∧ doe = doeOf yoe doy := by
+  -- century, 4-year cycle, year in cycle, day
+  obtain ⟨c, r, hc0, hc3, hr0, hr1, hrc, hdoe⟩ :
+      ∃ c r : Int, 0 ≤ c ∧ c ≤ 3 ∧ 0 ≤ r ∧ r ≤ 36524 ∧ (r = 36524 → c = 3) ∧ doe = 36524 * c + r := by
+    by_cases hlast : doe = 146096
+    · exact ⟨3, 36524, by omega, by omega, by omega, by omega, by omega, by omega⟩
+    · exact ⟨doe / 36524, doe % 36524, by omega, by omega, by omega, by omega, by omega, by omega⟩
+  obtain ⟨s, u, hs0, hs24, hu0, hu1, hr⟩ :
+      ∃ s u : Int, 0 ≤ s ∧ s ≤ 24 ∧ 0 ≤ u ∧ u ≤ 1460 ∧ r = 1461 * s + u :=
+    ⟨r / 1461, r % 1461, by omega, by omega, by omega, by omega, by omega⟩
+  obtain ⟨t, b, ht0, ht3, hb0, hb1, hbt, hu⟩ :
+      ∃ t b : Int, 0 ≤ t ∧ t ≤ 3 ∧ 0 ≤ b ∧ b ≤ 365 ∧ (b = 365 → t = 3) ∧ u = 365 * t + b := by
+    by_cases hlast : u = 1460
+    · exact ⟨3, 365, by omega, by omega, by omega, by omega, by omega, by omega⟩
+    · exact ⟨u / 365, u % 365, by omega, by omega, by omega, by omega, by omega, by omega⟩
+  refine ⟨100 * c + 4 * s + t, b, by omega, by omega, hb0, hb1, ?_, ?_⟩
+  · intro hb
+    have := hbt hb
+    refine ⟨by omega, ?_⟩
+    by_cases hs : s = 24
+    · right
+      have : r = 36524 := by omega
+      have := hrc this
+      omega
+    · left; omega
+  · unfold doeOf
+    have hq : (100 * c + 4 * s + t) / 4 = 25 * c + s := by omega
+    have hcc : (100 * c + 4 * s + t) / 100 = c := by omega
+    rw [hq, hcc]
+    omega
+
+/-- the month index (March = 0) and the day of month from the day of year -/
+theorem month_day_of_doy (doy : Int) (h0 : 0 ≤ doy) (h1 : doy ≤ 365) :
+    0 ≤ (5 * doy + 2) / 153 ∧ (5 * doy + 2) / 153 ≤ 11 ∧
+    1 ≤ doy - (153 * ((5 * doy + 2) / 153) + 2) / 5 + 1 ∧
+    doy - (153 * ((5 * doy + 2) / 153) + 2) / 5 + 1 ≤
+      (153 * ((5 * doy + 2) / 153 + 1) + 2) / 5 - (153 * ((5 * doy + 2) / 153) + 2) / 5 := by
+  have h : (5 * doy + 2) / 153 = 0 ∨ (5 * doy + 2) / 153 = 1 ∨ (5 * doy + 2) / 153 = 2 ∨ (5 * doy + 2) / 153 = 3 ∨
+      (5 * doy + 2) / 153 = 4 ∨ (5 * doy + 2) / 153 = 5 ∨ (5 * doy + 2) / 153 = 6 ∨ (5 * doy + 2) / 153 = 7 ∨
+      (5 * doy + 2) / 153 = 8 ∨ (5 * doy + 2) / 153 = 9 ∨ (5 * doy + 2) / 153 = 10 ∨ (5 * doy + 2) / 153 = 11 := by omega
+  rcases h with h | h | h | h | h | h | h | h | h | h | h | h <;> rw [h] <;> omega
+
+/-- `days_from_civil` from the parts `civil_from_days` works with: March..December -/
+theorem dfc_late (y0 era yoe mp doy : Int) (m d : Nat) (hm3 : ¬ m ≤ 2) (hy : y0 = yoe + era * 400) (h0 : 0 ≤ yoe) (h1 : yoe ≤ 399)
+    (hm : (Int.ofNat m + 9) % 12 = mp) (hd : (153 * mp + 2) / 5 + Int.ofNat d - 1 = doy) :
+    daysFromCivil y0 m d = era * 146097 + doeOf yoe doy - 719468 := by
+  unfold daysFromCivil
+  simp only [hm3, if_false, hm, hd]
+  have he : y0 / 400 = era := by omega
+  rw [he]
+  have hyo : y0 - era * 400 = yoe := by omega
+  rw [hyo]
+
+/-- January, February: they belong to the year that began the March before -/
+theorem dfc_early (y0 era yoe mp doy : Int) (m d : Nat) (hm2 : m ≤ 2) (hy : y0 = yoe + era * 400) (h0 : 0 ≤ yoe) (h1 : yoe ≤ 399)
+    (hm : (Int.ofNat m + 9) % 12 = mp) (hd : (153 * mp + 2) / 5 + Int.ofNat d - 1 = doy) :
+    daysFromCivil (y0 + 1) m d = era * 146097 + doeOf yoe doy - 719468 := by
+  unfold daysFromCivil
+  simp only [hm2, if_true, hm, hd]
+  have he : (y0 + 1 - 1) / 400 = era := by omega
+  rw [he]
+  have hyo : y0 + 1 - 1 - era * 400 = yoe := by omega
+  rw [hyo]
+
+theorem dim_table (y : Int) :
+    daysInMonth y 1 = 31 ∧ daysInMonth y 2 = (if isLeap y then 29 else 28) ∧ daysInMonth y 3 = 31 ∧ daysInMonth y 4 = 30 ∧
+    daysInMonth y 5 = 31 ∧ daysInMonth y 6 = 30 ∧ daysInMonth y 7 = 31 ∧ daysInMonth y 8 = 31 ∧ daysInMonth y 9 = 30 ∧
+    daysInMonth y 10 = 31 ∧ daysInMonth y 11 = 30 ∧ daysInMonth y 12 = 31 :=
+  ⟨rfl, rfl, rfl, rfl, rfl, rfl, rfl, rfl, rfl, rfl, rfl, rfl⟩
+
+/-- month index and day of month in range make a valid civil date -/
+theorem valid_of_parts (y mp dd : Int) (hmp0 : 0 ≤ mp) (hmp : mp ≤ 11) (hd1 : 1 ≤ dd)
+    (hdle : dd ≤ (153 * (mp + 1) + 2) / 5 - (153 * mp + 2) / 5)
+    (hfeb : mp = 11 → dd ≤ 29 ∧ (dd = 29 → isLeap y = true)) :
+    validCivil y (if mp < 10 then mp + 3 else mp - 9).toNat dd.toNat = true := by
+  obtain ⟨d1, d2, d3, d4, d5, d6, d7, d8, d9, d10, d11, d12⟩ := dim_table y
+  have hmcases : mp = 0 ∨ mp = 1 ∨ mp = 2 ∨ mp = 3 ∨ mp = 4 ∨ mp = 5 ∨ mp = 6 ∨ mp = 7 ∨ mp = 8 ∨ mp = 9 ∨ mp = 10 ∨ mp = 11 := by omega
+  rcases hmcases with rfl | rfl | rfl | rfl | rfl | rfl | rfl | rfl | rfl | rfl | rfl | rfl
+  case inr.inr.inr.inr.inr.inr.inr.inr.inr.inr.inr =>
+    obtain ⟨hf1, hf2⟩ := hfeb rfl
+    simp only [Int.reduceAdd, Int.reduceSub, Int.reduceLT, Int.reduceToNat, ↓reduceIte]
+    simp only [validCivil, Bool.and_eq_true, decide_eq_true_eq, d2]
+    by_cases hL : isLeap y = true
+    · simp only [hL, if_true]; omega
+    · simp only [hL, Bool.false_eq_true, if_false]
+      have : dd ≠ 29 := fun h => hL (hf2 h)
+      omega
+  all_goals
+    simp only [Int.reduceAdd, Int.reduceSub, Int.reduceLT, Int.reduceToNat, ↓reduceIte]
+    simp only [validCivil, Bool.and_eq_true, decide_eq_true_eq, d1, d3, d4, d5, d6, d7, d8, d9, d10, d11, d12]
+    omega
+
+/-- `days_from_civil` of the date built from month index and day of month -/
+theorem dfc_of_mp (y0 era yoe mp doy dd : Int) (hy : y0 = yoe + era * 400) (h0 : 0 ≤ yoe) (h1 : yoe ≤ 399)
+    (hmp0 : 0 ≤ mp) (hmp : mp ≤ 11) (hd1 : 1 ≤ dd) (hd : (153 * mp + 2) / 5 + dd - 1 = doy) :
+    daysFromCivil (if (if mp < 10 then mp + 3 else mp - 9) ≤ 2 then y0 + 1 else y0)
+      (if mp < 10 then mp + 3 else mp - 9).toNat dd.toNat = era * 146097 + doeOf yoe doy - 719468 := by
+  have hddn : Int.ofNat dd.toNat = dd := by simp only [Int.ofNat_eq_natCast]; omega
+  have hmcases : mp = 0 ∨ mp = 1 ∨ mp = 2 ∨ mp = 3 ∨ mp = 4 ∨ mp = 5 ∨ mp = 6 ∨ mp = 7 ∨ mp = 8 ∨ mp = 9 ∨ mp = 10 ∨ mp = 11 := by omega
+  rcases hmcases with rfl | rfl | rfl | rfl | rfl | rfl | rfl | rfl | rfl | rfl | rfl | rfl
+  all_goals
+    simp only [Int.reduceAdd, Int.reduceSub, Int.reduceLT, Int.reduceLE, Int.reduceToNat, ↓reduceIte]
+  · exact dfc_late _ era yoe 0 doy 3 dd.toNat (by decide) hy h0 h1 (by decide) (by rw [hddn]; omega)
+  · exact dfc_late _ era yoe 1 doy 4 dd.toNat (by decide) hy h0 h1 (by decide) (by rw [hddn]; omega)
+  · exact dfc_late _ era yoe 2 doy 5 dd.toNat (by decide) hy h0 h1 (by decide) (by rw [hddn]; omega)
+  · exact dfc_late _ era yoe 3 doy 6 dd.toNat (by decide) hy h0 h1 (by decide) (by rw [hddn]; omega)
+  · exact dfc_late _ era yoe 4 doy 7 dd.toNat (by decide) hy h0 h1 (by decide) (by rw [hddn]; omega)
+  · exact dfc_late _ era yoe 5 doy 8 dd.toNat (by decide) hy h0 h1 (by decide) (by rw [hddn]; omega)
+  · exact dfc_late _ era yoe 6 doy 9 dd.toNat (by decide) hy h0 h1 (by decide) (by rw [hddn]; omega)
+  · exact dfc_late _ era yoe 7 doy 10 dd.toNat (by decide) hy h0 h1 (by decide) (by rw [hddn]; omega)
+  · exact dfc_late _ era yoe 8 doy 11 dd.toNat (by decide) hy h0 h1 (by decide) (by rw [hddn]; omega)
+  · exact dfc_late _ era yoe 9 doy 12 dd.toNat (by decide) hy h0 h1 (by decide) (by rw [hddn]; omega)
+  · exact dfc_early _ era yoe 10 doy 1 dd.toNat (by decide) hy h0 h1 (by decide) (by rw [hddn]; omega)
+  · exact dfc_early _ era yoe 11 doy 2 dd.toNat (by decide) hy h0 h1 (by decide) (by rw [hddn]; omega)
+
+/-- year, month, day from a day of era: a valid date, and `days_from_civil` leads back -/
+theorem civilOfEra_spec (era doe : Int) (h0 : 0 ≤ doe) (h1 : doe ≤ 146096) :
+    validCivil (civilOfEra era doe).1 (civilOfEra era doe).2.1 (civilOfEra era doe).2.2 = true ∧
+    daysFromCivil (civilOfEra era doe).1 (civilOfEra era doe).2.1 (civilOfEra era doe).2.2 = era * 146097 + doe - 719468 := by
+  obtain ⟨yoe, doy, hy0, hy1, hdy0, hdy1, hlp, hdec⟩ := doe_decompose doe h0 h1
+  obtain ⟨hrec, _, _⟩ := yoe_recover yoe doy hy0 hy1 hdy0 hdy1 hlp
+  obtain ⟨hm0, hm11, hday1, hdayle⟩ := month_day_of_doy doy hdy0 hdy1
+  subst hdec
+  have hdoy2 : doeOf yoe doy - (365 * yoe + yoe / 4 - yoe / 100) = doy := by unfold doeOf; omega
+  have hshape : civilOfEra era (doeOf yoe doy) =
+      (if (if (5 * doy + 2) / 153 < 10 then (5 * doy + 2) / 153 + 3 else (5 * doy + 2) / 153 - 9) ≤ 2
+        then yoe + era * 400 + 1 else yoe + era * 400,
+       (if (5 * doy + 2) / 153 < 10 then (5 * doy + 2) / 153 + 3 else (5 * doy + 2) / 153 - 9).toNat,
+       (doy - (153 * ((5 * doy + 2) / 153) + 2) / 5 + 1).toNat) := by
+    unfold civilOfEra
+    simp only [hrec, hdoy2]
+  rw [hshape]
+  generalize hmp : (5 * doy + 2) / 153 = mp at *
+  generalize hdd : doy - (153 * mp + 2) / 5 + 1 = dd at *
+  simp only
+  constructor
+  · -- the year of the date: yoe + era*400 (+1 for January, February)
+    have hv : ∀ y : Int, (mp = 11 → dd = 29 → isLeap y = true) → 
+        validCivil y (if mp < 10 then mp + 3 else mp - 9).toNat dd.toNat = true := fun y hy =>
+      valid_of_parts y mp dd hm0 hm11 hday1 hdayle (fun h11 => ⟨by subst h11; omega, hy h11⟩)
+    apply hv
+    intro h11 h29
+    subst h11
+    have h365 : doy = 365 := by omega
+    obtain ⟨l1, l2⟩ := hlp h365
+    simp only [Int.reduceLT, Int.reduceSub, Int.reduceLE, ↓reduceIte]
+    exact (isLeap_iff _).mpr (by omega)
+  · exact dfc_of_mp (yoe + era * 400) era yoe mp doy dd rfl hy0 hy1 hm0 hm11 hday1 (by omega)
+
+/-- **`civil_from_days` yields a valid date whose day number is the argument** (every integer day number) -/
+theorem civil_of_days (z : Int) :
+    validCivil (civilFromDays z).1 (civilFromDays z).2.1 (civilFromDays z).2.2 = true ∧
+    daysFromCivil (civilFromDays z).1 (civilFromDays z).2.1 (civilFromDays z).2.2 = z := by
+  have h := civilOfEra_spec ((z + 719468) / 146097) (z + 719468 - (z + 719468) / 146097 * 146097) (by omega) (by omega)
+  unfold civilFromDays
+  simp only
+  refine ⟨h.1, ?_⟩
+  rw [h.2]
+  omega
+
 end CivilL
 end Fsel
